@@ -109,7 +109,11 @@ def run(prop, tier, seed, scratch, replay=None):
     res.add_report(rep)
     if rep["traces"] != bfs["ntraces"] + sim["ntraces"]:
         res.errors.append("driver replayed %d of %d behaviours" % (rep["traces"], bfs["ntraces"] + sim["ntraces"]))
+    # binding self-test: the prescribed result class of the last step and the expected content, altered, must be noticed
+    st = vlib.binding_selftest(scratch, drv, lambda i, o: ["-in", i, "-out", o, "-keys", scratch.path("st-keys.txt"), "-workers", 4],
+                               bfstr, ["step.ret.c", "disk"], where=lambda tr: len(tr.get("steps") or []) >= 3)
     res.coverage = {
+        "binding_selftest": st,
         "states": bfs["distinct"], "transitions": bfs["generated"],
         "traces_validated_against_impl": rep["traces"],
         "evaluations": rep["checks"], "distinct_nontrivial": rep["distinct_nontrivial"],
